@@ -183,3 +183,14 @@ func VH_C07_fragmented() {
 		vndAssert(ok, "returned response re-encodes to exactly the reply")
 	}
 }
+
+// VH_C07_loop_shape: the structural premise of "every 3-read fragmentation of a reply is the inductive step of the
+// read loop for that reply": apart from memory (the receive buffer), the loops of (*Client).do and
+// (*SerialClient).do carry exactly one value - the byte count - from one iteration to the next.
+func VH_C07_loop_shape() {
+	vndCover("loop-shape")
+	n1 := vndLoopPhis("(*github.com/aldas/go-modbus-client.Client).do")
+	n2 := vndLoopPhis("(*github.com/aldas/go-modbus-client.SerialClient).do")
+	vndRequire(n1 < 0 || n1 == 1, "(*Client).do read loop carries exactly the byte count")
+	vndRequire(n2 < 0 || n2 == 1, "(*SerialClient).do read loop carries exactly the byte count")
+}
